@@ -212,6 +212,19 @@ theorem count_contract (l1raw start stop kib : ℕ) (hstop : stop < 2 ^ 64) (hk 
       ((List.range (stop + 1)).filter (fun p => decide (start ≤ p) && decide (Nat.Prime p))).length :=
   Pc.PsCore.count_contract l1raw start stop kib hstop hk hk2 hfl
 
+/-- `generator_contract` in the shape of a generator specification (C17's `PrimeGenSpec`, WP iter's `GenSpec`): strictly increasing, and
+    `p` is delivered iff it is a prime of `[start, stop]`. -/
+theorem generator_contract_spec (l1raw start stop kib : ℕ) (hstop : stop < 2 ^ 64) (hk : 16 ≤ kib) (hk2 : kib ≤ 8192)
+    (hfl : FloatOk l1raw (max 721 start) stop kib) :
+    (generatePrimes (preTabsDecoded ()) l1raw start stop kib).Pairwise (· < ·) ∧
+    ∀ p, p ∈ generatePrimes (preTabsDecoded ()) l1raw start stop kib ↔ (start ≤ p ∧ p ≤ stop ∧ Nat.Prime p) := by
+  rw [generator_contract l1raw start stop kib hstop hk hk2 hfl]
+  refine ⟨List.Pairwise.filter _ List.pairwise_lt_range, fun p => ?_⟩
+  simp only [List.mem_filter, List.mem_range, Bool.and_eq_true, decide_eq_true_eq]
+  constructor
+  · rintro ⟨h1, h2, h3⟩; exact ⟨h2, by omega, h3⟩
+  · rintro ⟨h1, h2, h3⟩; exact ⟨by omega, h1, h3⟩
+
 /-- the contracts without any assumption, below `2^50` -/
 theorem generator_contract_below_2_50 (l1raw start stop kib : ℕ) (h50 : stop < 2 ^ 50) (hk : 16 ≤ kib) (hk2 : kib ≤ 8192) :
     generatePrimes (preTabsDecoded ()) l1raw start stop kib =
@@ -288,5 +301,6 @@ end Pc.C18CoreContract
 #print axioms Pc.C18CoreContract.float_ok_below_2_50
 #print axioms Pc.C18CoreContract.generator_contract
 #print axioms Pc.C18CoreContract.count_contract
+#print axioms Pc.C18CoreContract.generator_contract_spec
 #print axioms Pc.C18CoreContract.generator_contract_below_2_50
 #print axioms Pc.C18CoreContract.count_contract_below_2_50
